@@ -116,6 +116,41 @@ def rule_anchors():
     return _ANCHORS
 
 
+ENGINE_TABLES = {"loops.py": {"C13"}, "assumptions.py": {"C08", "C09"}, "rangedrv.py": {"C08", "C09"}, "exthdr.py": {"C05", "C08"}}
+CURRENT_DEFINED = None      # C names of the functions defined in the normalised plain view of this run (set by Context.plain)
+
+
+def property_anchors(prop):
+    """functions of the reference tree (known_functions.txt) that the rules of one property name: its own module, the property modules it
+    borrows rules from, and the engine tables it uses"""
+    import re
+    here = os.path.dirname(os.path.abspath(__file__))
+    known = set(open(os.path.join(here, "known_functions.txt")).read().split())
+    files, seen, todo = [], set(), [prop.lower()]
+    while todo:
+        m = todo.pop()
+        if m in seen:
+            continue
+        seen.add(m)
+        pth = os.path.join(here, "props", m + ".py")
+        if os.path.exists(pth):
+            files.append(pth)
+            todo += re.findall(r"from \.(c\d\d) import", open(pth).read())
+    for f, props in ENGINE_TABLES.items():
+        if any(("C" + x[1:].upper() if x.startswith("c") else x) in props for x in seen):
+            files.append(os.path.join(here, f))
+    names = set()
+    for pth in files:
+        names |= set(re.findall(r"""["']([A-Za-z_][A-Za-z0-9_]*)["']""", open(pth).read()))
+    return names & known
+
+
+def vanished_anchors(prop):
+    if CURRENT_DEFINED is None:
+        return []
+    return sorted(property_anchors(prop) - CURRENT_DEFINED)
+
+
 class Views:
     """Holds a temp dir with the compiled views; use as a context manager."""
 
